@@ -152,7 +152,7 @@ def build(kind="simd", config="default", lane="asan", extra_sources=(), extra_fl
     key = hashlib.sha1()
     key.update(tree_hash(repo).encode())
     key.update(repr((kind, sorted(cfg.items()), lane, lane_d, sorted(wraps), cjet_units,
-                     list(extra_flags), list(link_extra), main_rename)).encode())
+                     list(extra_flags), list(link_extra), main_rename, 'libc-alloc-v1')).encode())
     for s in list(extra_sources) + [os.path.join(VERIF, "simk", "simk_fuzz.inc")]:
         with open(s, "rb") as fh:
             key.update(fh.read())
@@ -175,6 +175,9 @@ def build(kind="simd", config="default", lane="asan", extra_sources=(), extra_fl
         cmd = [cc] + lane_d["flags"] + fl + inc + list(extra_flags)
         if main_rename and p.endswith("posix/main.c"):
             cmd += ["-Dmain=cjet_main"]
+        if kind == "simd" and p.endswith("src/alloc.c"):
+            # the C library calls INSIDE the accounting allocator go through the harness, which can make exactly one of them fail
+            cmd += ["-Dmalloc=simk_libc_malloc", "-Dcalloc=simk_libc_calloc"]
         cmd += ["-c", p, "-o", o]
         jobs.append(cmd)
     for i, p in enumerate(extra_sources):
